@@ -18,7 +18,8 @@ for c in $checks; do
   GV_WORKER_BIN=$T/release/gv-worker GV_CLI_BIN=$T/cli/release/cfn-guard LLVM_PROFILE_FILE=$T/prof/$c-%p-%8m.profraw ./gv check $c --tier quick 2>&1 | grep -E "^C[0-9]+ " | cut -c1-120
 done
 git checkout -- evidence 2>/dev/null
-$TOOLS/llvm-profdata merge -sparse $T/prof/*.profraw -o $T/all.profdata
+find $T/prof -name "*.profraw" -size +0 > $T/prof.list      # tens of thousands of files: a glob would exceed the argument limit
+$TOOLS/llvm-profdata merge -sparse -f $T/prof.list -o $T/all.profdata --num-threads=8
 $TOOLS/llvm-cov report $T/release/gv-worker -object $T/cli/release/cfn-guard -instr-profile=$T/all.profdata -ignore-filename-regex='(registry|vendor|rustc|harness|_tests?\.rs|tests/)' > $T/report.txt
 $TOOLS/llvm-cov show $T/release/gv-worker -object $T/cli/release/cfn-guard -instr-profile=$T/all.profdata -ignore-filename-regex='(registry|vendor|rustc|harness|_tests?\.rs|tests/)' -show-line-counts-or-regions=false -Xdemangler=rustfilt 2>/dev/null > $T/show.txt || \
 $TOOLS/llvm-cov show $T/release/gv-worker -object $T/cli/release/cfn-guard -instr-profile=$T/all.profdata -ignore-filename-regex='(registry|vendor|rustc|harness|_tests?\.rs|tests/)' > $T/show.txt
